@@ -30,3 +30,19 @@ Proof. split; reflexivity. Qed.
 
 Lemma pool_defaults : pool_default_interval_ms = 30000%Z /\ pool_default_timeout_ms = 60000%Z /\ pool_default_min_idle = 1.
 Proof. repeat split; reflexivity. Qed.
+
+(* the pool key is assigned before the session enters the idle map, in the real path and in the hook path:
+   otherwise every new session is inserted under key `session_initial_seq` and replaces the one idle there *)
+Lemma client_seq_before_add :
+  client_seq_set_before_add_real = true /\ client_seq_set_before_add_hook = true /\ session_initial_seq = 0.
+Proof. repeat split; reflexivity. Qed.
+
+(* a reaper pass is atomic w.r.t. get_idle_session: scan, removal from the map and close all happen under the
+   write guard taken for the scan (Model/Pool.v's pool_reap_step is one step; the proofs rely on it) *)
+Lemma pool_reap_atomic :
+  pool_reap_atomic_under_write_guard = [true; true] /\ pool_get_under_write_guard = true.
+Proof. split; reflexivity. Qed.
+
+(* the response baseline of an outstanding keep-alive request is the counter loaded before the request is written *)
+Lemma hb_baseline_shape : hb_baseline_before_write = true.
+Proof. reflexivity. Qed.
